@@ -47,7 +47,7 @@ def expr(rng, d, neg, pal):
         return ["inv", expr(rng, d - 1, not neg, pal)]
     if k < 0.84:
         return [rng.choice(["or", "sub"]), expr(rng, d - 1, neg, pal), expr(rng, d - 1, not neg, pal)]
-    o = ["chr", rng.choice(pal)] if rng.random() < 0.6 else ["tok", rng.choice(cc.TOKS)]
+    o = ["chr", rng.choice(pal)] if rng.random() < 0.6 else (["tok", rng.choice(cc.TOKS)] if rng.random() < 0.8 else ["lit", rng.choice(pal)])
     if rng.random() < 0.5:
         return [rng.choice(["or", "sub"]), expr(rng, d - 1, neg, pal), o]
     return [rng.choice(["or", "sub"]), o, expr(rng, d - 1, neg, pal)]
@@ -87,7 +87,7 @@ def with_refs(rng, r, n, mpool, neg, force=False):
         return r
 
     def walk(x, polarity):
-        if not isinstance(x, list) or not x or x[0] in ("chr", "tok"):
+        if not isinstance(x, list) or not x or x[0] in ("chr", "tok", "lit"):
             return x
         if x[0] in ("or", "sub"):
             return [x[0]] + [sub(y, polarity) for y in x[1:]]
@@ -96,7 +96,7 @@ def with_refs(rng, r, n, mpool, neg, force=False):
         return x
 
     def sub(y, polarity):
-        if isinstance(y, list) and y and y[0] not in ("chr", "tok") and polarity == neg and rng.random() < 0.5:
+        if isinstance(y, list) and y and y[0] not in ("chr", "tok", "lit") and polarity == neg and rng.random() < 0.5:
             return ["ref", rng.choice(ok)]
         return walk(y, polarity)
     out = walk(r, neg)
